@@ -147,6 +147,9 @@ struct Case {
     mprogs: Vec<Vec<(usize, MOp, String)>>,
     /// how the harness consumes a chunk: next (default) | nth | skip | last | count | fold | stepby (ledger-only cases)
     chunkstyle: String,
+    /// which constructor builds the iterator of a reference-yielding or range source: into (default) | con_iter_vec |
+    /// con_iter_array | con_iter_slice | con_iter_range | from
+    ctor: String,
 }
 
 fn on_parse(s: &str) -> Option<u64> {
@@ -213,6 +216,7 @@ fn read_cases(input: &mut dyn BufRead) -> Vec<Case> {
                     multi: 0,
                     mprogs: vec![],
                     chunkstyle: String::new(),
+                    ctor: String::new(),
                 })
             }
             "env" => {
@@ -256,6 +260,7 @@ fn read_cases(input: &mut dyn BufRead) -> Vec<Case> {
             "freeze" => cur.as_mut().unwrap().freeze = Some((w[1].parse().unwrap(), w[2].parse().unwrap())),
             "elem" => cur.as_mut().unwrap().env.elem = w[1].to_string(),
             "chunkstyle" => cur.as_mut().unwrap().chunkstyle = w[1].to_string(),
+            "ctor" => cur.as_mut().unwrap().ctor = w[1].to_string(),
             "multi" => {
                 let c = cur.as_mut().unwrap();
                 c.multi = w[1].parse().unwrap();
@@ -978,6 +983,21 @@ fn run_case_multi(case: &Case) -> Vec<String> {
     }
 }
 
+macro_rules! array_con_iter_case {
+    ($case:expr, $($n:literal),*) => {
+        match $case.env.len {
+            $( $n => {
+                let a: [E; $n] = std::array::from_fn(|i| E::new(i as u64));
+                let out = drive($case, a.con_iter());
+                CALLER_PHASE.store(true, Ordering::SeqCst);
+                drop(a);
+                out
+            } )*
+            n => vec![format!("case {}", $case.id), format!("unsupported array length {}", n), "end".into()],
+        }
+    };
+}
+
 macro_rules! array_case {
     ($case:expr, $($n:literal),*) => {
         match $case.env.len {
@@ -1046,9 +1066,15 @@ fn run_case(case: &Case) -> Vec<String> {
         _ => 2,
     };
     let out = match (env.kind.as_str(), env.adaptor.as_str()) {
+        ("slice", "none") if case.ctor == "con_iter_array" => array_con_iter_case!(case, 0, 1, 2, 3, 4, 5, 6, 7, 8, 9, 10, 11, 12),
         ("slice", "none") => {
             let v: Vec<E> = (0..len).map(E::new).collect();
-            let out = drive(case, v.as_slice().into_con_iter());
+            let out = match case.ctor.as_str() {
+                "con_iter_vec" => drive(case, v.con_iter()),
+                "con_iter_slice" => drive(case, v.as_slice().con_iter()),
+                "from" => drive(case, ConIterOfSlice::from(v.as_slice())),
+                _ => drive(case, v.as_slice().into_con_iter()),
+            };
             CALLER_PHASE.store(true, Ordering::SeqCst);
             drop(v);
             out
@@ -1068,12 +1094,19 @@ fn run_case(case: &Case) -> Vec<String> {
             // with spare capacity: length and capacity differ
             let mut v: Vec<E> = Vec::with_capacity(len as usize + 3);
             v.extend((0..len).map(E::new));
-            drive(case, v.into_con_iter())
+            match case.ctor.as_str() {
+                "from" => drive(case, ConIterOfVec::from(v)),
+                _ => drive(case, v.into_con_iter()),
+            }
         }
         ("array", _) => array_case!(case, 0, 1, 2, 3, 4, 5, 6, 7, 8, 9, 10, 11, 12),
         ("range", _) => {
             let r = (env.start as usize)..(env.end as usize);
-            drive(case, IntoConcurrentIter::into_con_iter(r))
+            match case.ctor.as_str() {
+                "con_iter_range" => drive(case, r.con_iter()),
+                "from" => drive(case, ConIterOfRange::from(r)),
+                _ => drive(case, IntoConcurrentIter::into_con_iter(r)),
+            }
         }
         ("iter", "none") => {
             if env.owning {
